@@ -76,7 +76,7 @@ void *serial_create(char *special, char *flags)
     SerialDev *ser = (SerialDev *)xmalloc(sizeof(SerialDev));
 
     ser->special = xstrdup(special);
-    ser->flags = xstrdup(flags);
+    ser->flags = flags ? xstrdup(flags) : NULL;   /* flags are optional */
 
     return (void *)ser;
 }
@@ -184,7 +184,6 @@ bool serial_connect(Device * dev)
     int baud = 9600, databits = 8, stopbits = 1;
     char parity = 'N';
     int res;
-    int n;
 
     assert(dev->connect_state == DEV_NOT_CONNECTED);
     assert(dev->fd == NO_FD);
@@ -217,9 +216,12 @@ bool serial_connect(Device * dev)
         goto out;
     }
 
-    /* parse the serial flags and set up port accordingly */
-    n = sscanf(ser->flags, "%d,%d%c%d", &baud, &databits, &parity, &stopbits);
-    assert(n >= 0 && n <= 4); /* 0-4 matches OK (defaults if no match) */
+    /* parse the serial flags and set up port accordingly
+     * (0-4 matches or EOF are all OK: defaults apply to what is not matched)
+     */
+    if (ser->flags != NULL)
+        (void)sscanf(ser->flags, "%d,%d%c%d",
+                     &baud, &databits, &parity, &stopbits);
     res = _serial_setup(dev->name, dev->fd, baud, databits, parity, stopbits);
     if (res < 0)
         goto out;
